@@ -90,6 +90,19 @@ CLAIMED = {
              'exactly one record (one gzip member) with that record ID, URL and payload digest; status and MIME type equal '
              'those parsed by the reference from the archived header block (multi-line, > 4 KiB, structured subtypes).',
         note='Trusted: refs/warc.py, refs/rfc7230.py header parsing.'),
+    'C06': dict(
+        level='fault_enumeration', engine='warcfault', design_ref='4/C06',
+        technique='deterministic fault injection: per sampled archive+record workload, EVERY file operation of the append (open, '
+                  'each raw write below real Python buffering, truncate, close, unlink) is enumerated as an I/O-error position '
+                  '(error, error-after-partial-write, short write) and as a kill position (plus torn prefixes of each write); '
+                  'kill model cross-checked against real fork+_exit',
+        text='Workloads (compression, number and size of earlier records, size/compressibility of the appended record) are sampled; '
+             'for each, the fault positions are enumerated completely. I/O-error clause: write_record raised, archive bytes equal '
+             'the pre-append bytes exactly, no journal left. Kill clause: archive is the old or the new valid record sequence, or a '
+             'journal naming the pre-append length exists and truncation restores the old archive; a new recorder refuses to start '
+             'while the journal exists.',
+        note='Trusted: refs/warc.py; kill = loss of Python-level buffers only (bytes given to raw write() survive), cross-checked '
+             'against real kills on a sample each run; one fault per append; failure of the journal unlink itself is waived.'),
 }
 
 PENDING_REASON = 'check not built yet in this round (designed in DESIGN.md section 4); no claim is made'
